@@ -371,7 +371,8 @@ func shortKey(parts ...string) string {
 	return hx(h[:12])
 }
 
-const modelMaxBytes = 6000 // byte strings longer than this go to the oracle only
+const modelMaxBytes = 6000         // byte strings longer than this go to the oracle only
+const boundaryModelMaxBytes = 9000 // ... except the byte-level boundary corpus (256/257 members)
 
 // collisions: payload encoding -> canonical payload projection, over the whole run
 var payloads = map[string]string{}
@@ -399,7 +400,7 @@ func runUnmarshal(c *vh.Ctx, cs Case) {
 		obs = vh.Pan("tx")
 	}
 	term := ""
-	if len(b) <= modelMaxBytes {
+	if len(b) <= modelMaxBytes || (strings.HasPrefix(cs.Kind, "boundary") && len(b) <= boundaryModelMaxBytes) {
 		term = vh.App("CUnmarshal", pB(b), obs) + "%uint63"
 	}
 	nontrivial := cls == 0 || (len(b) > 36 && bytes.Equal(b[:4], []byte{0x77, 0x77, 0, common.TxVersionHashSignature}))
@@ -649,16 +650,20 @@ func run(c *vh.Ctx, cs Case) {
 // non-canonical ones); it is never used as an oracle -------------------------------
 
 type variant struct {
-	unsortedKeys  bool // signature-map entries in the given (unsorted) order
-	forceSparse   bool // aggregated signers in sparse form regardless of density
-	forceOrdinary bool // aggregated signers as a mask regardless of density
-	trailingZero  int  // extra zero bytes after the mask
-	dupEntry      bool // repeat the first entry of each signature map
-	padInteger    bool // amounts with a leading zero byte
-	mapCount      int  // if > 0: the declared number of signature maps
+	unsortedKeys  bool   // signature-map entries in the given (unsorted) order
+	forceSparse   bool   // aggregated signers in sparse form regardless of density
+	forceOrdinary bool   // aggregated signers as a mask regardless of density
+	trailingZero  int    // extra zero bytes after the mask
+	dupEntry      bool   // repeat the first entry of each signature map
+	padInteger    bool   // amounts with a leading zero byte
+	amountRaw     []byte // if non-nil: the length-prefixed bytes written for every amount
+	mapCount      int    // if > 0: the declared number of signature maps
 }
 
-type wr struct{ b []byte }
+type wr struct {
+	b         []byte
+	amountRaw []byte
+}
 
 func (w *wr) u16(v int)    { w.b = binary.BigEndian.AppendUint16(w.b, uint16(v)) }
 func (w *wr) u32(v int)    { w.b = binary.BigEndian.AppendUint32(w.b, uint32(v)) }
@@ -666,6 +671,10 @@ func (w *wr) u64(v uint64) { w.b = binary.BigEndian.AppendUint64(w.b, v) }
 func (w *wr) raw(b []byte) { w.b = append(w.b, b...) }
 func (w *wr) lp(b []byte)  { w.u16(len(b)); w.raw(b) }
 func (w *wr) integer(s string, pad bool) {
+	if w.amountRaw != nil {
+		w.lp(w.amountRaw)
+		return
+	}
 	b := bigOf(s).Bytes()
 	if pad {
 		b = append([]byte{0}, b...)
@@ -674,7 +683,7 @@ func (w *wr) integer(s string, pad bool) {
 }
 
 func write(j *TxJ, v variant) []byte {
-	w := &wr{}
+	w := &wr{amountRaw: v.amountRaw}
 	w.raw([]byte{0x77, 0x77, 0, j.Version})
 	w.raw(unhex(j.Asset))
 	w.u16(len(j.Ins))
@@ -1437,10 +1446,114 @@ func corpus(c *vh.Ctx) {
 	}
 }
 
+// boundaryCorpus: decoder-side limits, assembled at BYTE level (the encoder refuses most
+// of these values) from complete, well-formed members: every count at limit-1, limit,
+// limit+1 and at the next larger related constant.  Oracle (runUnmarshal): the decoder
+// never panics and whatever it accepts re-encodes to the same bytes.
+func boundaryCorpus(c *vh.Ctx) {
+	r := c.Rng.Fork("boundary")
+	empty := &TxJ{Version: 5, Asset: zeros(32)}
+	u := func(kind string, b []byte) { runUnmarshal(c, Case{Op: "unmarshal", Kind: kind, Hex: hx(b)}) }
+	counts := []int{common.SliceCountLimit - 1, common.SliceCountLimit, common.SliceCountLimit + 1, common.InputIndexLimit, common.InputIndexLimit + 1}
+	for _, n := range counts {
+		ins, outs, refs, keys, maps, ents := cloneTx(empty), cloneTx(empty), cloneTx(empty), cloneTx(empty), cloneTx(empty), cloneTx(empty)
+		keys.Outs = []OutJ{{Type: 0, Amount: "1", Mask: rhex(r, 32)}}
+		ents.Maps = [][]EntJ{{}}
+		for i := 0; i < n; i++ {
+			ins.Ins = append(ins.Ins, InJ{Hash: rhex(r, 32), Index: uint64(i % 3)})
+			outs.Outs = append(outs.Outs, OutJ{Type: 0, Amount: "1", Mask: rhex(r, 32)})
+			refs.Refs = append(refs.Refs, rhex(r, 32))
+			keys.Outs[0].Keys = append(keys.Outs[0].Keys, rhex(r, 32))
+			maps.Maps = append(maps.Maps, []EntJ{})
+			ents.Maps[0] = append(ents.Maps[0], EntJ{I: uint16(i), S: rhex(r, 64)})
+		}
+		u("boundary-inputs", write(ins, variant{}))
+		u("boundary-outputs", write(outs, variant{}))
+		u("boundary-references", write(refs, variant{}))
+		u("boundary-keys", write(keys, variant{}))
+		u("boundary-maps", write(maps, variant{}))
+		u("boundary-map-entries", write(ents, variant{}))
+		// aggregated signers: n signers, sparse (spaced) and ordinary (dense)
+		sp, de := cloneTx(empty), cloneTx(empty)
+		sp.Agg, de.Agg = &AggJ{Sig: rhex(r, 64)}, &AggJ{Sig: rhex(r, 64)}
+		for i := 0; i < n; i++ {
+			sp.Agg.Signers = append(sp.Agg.Signers, 20*i+19)
+			de.Agg.Signers = append(de.Agg.Signers, i)
+		}
+		u("boundary-agg-signers", write(sp, variant{}))
+		u("boundary-agg-signers", write(de, variant{}))
+		u("boundary-agg-signers", write(de, variant{forceSparse: true}))
+	}
+	// declared map count at the top of the range (0xFFFF is the aggregated marker)
+	{
+		j := cloneTx(empty)
+		for i := 0; i < common.SliceCountLimit; i++ {
+			j.Maps = append(j.Maps, []EntJ{})
+		}
+		for _, n := range []int{common.MaximumEncodingInt - 1, common.MaximumEncodingInt} {
+			u("boundary-maps", write(j, variant{mapCount: n}))
+		}
+	}
+	// aggregated signer index at the top of the range, both forms
+	for _, mx := range []int{common.MaximumEncodingInt - 1, common.MaximumEncodingInt} {
+		j := cloneTx(empty)
+		j.Agg = &AggJ{Sig: rhex(r, 64), Signers: []int{3, mx}}
+		u("boundary-agg-index", write(j, variant{}))
+		u("boundary-agg-index", write(j, variant{forceOrdinary: true}))
+	}
+	// input index
+	for _, idx := range []uint64{common.InputIndexLimit - 1, common.InputIndexLimit, common.InputIndexLimit + 1} {
+		j := cloneTx(empty)
+		j.Ins = []InJ{{Hash: rhex(r, 32), Index: idx}}
+		u("boundary-index", write(j, variant{}))
+	}
+	// amount length 0, 1, 2, ... with and without a leading zero; 65535 bytes
+	{
+		j := cloneTx(empty)
+		j.Ins = []InJ{{Hash: zeros(32), Mint: &MintJ{Group: hx([]byte("KERNELNODE")), Batch: 1, Amount: "1"}}}
+		j.Outs = []OutJ{{Type: 0, Amount: "1", Mask: rhex(r, 32)}}
+		for _, raw := range [][]byte{{}, {0}, {1}, {0, 1}, {1, 0}, {0, 0}, {255, 255}, {0, 255, 255}, {1, 0, 0}} {
+			u("boundary-amount", write(j, variant{amountRaw: raw}))
+		}
+		big1 := bytes.Repeat([]byte{0xab}, common.MaximumEncodingInt)
+		u("boundary-amount", write(j, variant{amountRaw: big1}))
+		big1[0] = 0
+		u("boundary-amount", write(j, variant{amountRaw: big1}))
+	}
+	// extra length around ExtraSizeGeneralLimit
+	for _, n := range []int{common.ExtraSizeGeneralLimit - 1, common.ExtraSizeGeneralLimit, common.ExtraSizeGeneralLimit + 1} {
+		j := cloneTx(empty)
+		j.Extra = hx(r.Bytes(n))
+		u("boundary-extra", write(j, variant{}))
+	}
+}
+
+// hugeCorpus: extra length around ExtraSizeStorageCapacity and total size around the
+// 4 MiB cap (oracle only; run last so that report samples stay small).
+func hugeCorpus(c *vh.Ctx) {
+	empty := &TxJ{Version: 5, Asset: zeros(32)}
+	base := len(write(empty, variant{}))
+	sizes := []int{}
+	for d := -1; d <= 1; d++ {
+		sizes = append(sizes, common.ExtraSizeStorageCapacity+d) // declared extra length at the capacity
+		sizes = append(sizes, 4*1024*1024-base+d)                // total size at the cap
+	}
+	for _, n := range sizes {
+		b := write(empty, variant{})
+		// splice an n-byte extra in: the extra length field sits 6 bytes before the end
+		body := bytes.Repeat([]byte{0x5a}, n)
+		out := append([]byte{}, b[:len(b)-6]...)
+		out = binary.BigEndian.AppendUint32(out, uint32(n))
+		out = append(out, body...)
+		out = append(out, 0, 0)
+		runUnmarshal(c, Case{Op: "unmarshal", Kind: "boundary-size", Hex: hx(out)})
+	}
+}
+
 func main() {
 	c := vh.Start("C06")
 	c.Rep.Rule = "corpus (every special input and output type, sparse/ordinary aggregate masks on both sides of max/8+1 > 2*len, " +
-		"count/index/version limits, short strings), then families drawn from one SplitMix64 stream: a structured transaction value " +
+		"count/index/version limits, short strings; byte-level decoder boundary cases with complete members: inputs/outputs/references/keys/maps/map entries/aggregate signers at 255, 256, 257, 1024, 1025, amount lengths, extra and total size around their caps), then families drawn from one SplitMix64 stream: a structured transaction value " +
 		"(0-9 inputs incl. deposit/mint/genesis, 0-9 outputs of all types incl. withdrawal data, references, extra, signature maps in random " +
 		"entry order or an aggregated signature) -> its encoding, 2-4 single-byte mutations/truncations/extensions/deletions of it, a hand-written " +
 		"non-canonical encoding of it (unsorted or repeated map index, other mask form, padded mask or amount, wrong map count), a pair with the same " +
@@ -1455,6 +1568,8 @@ func main() {
 		return
 	}
 	corpus(c)
+	boundaryCorpus(c)
+	hugeCorpus(c)
 	n := c.Scale(220, 6000)
 	for i := 0; i < n; i++ {
 		r := c.Rng
